@@ -85,7 +85,9 @@ func scenC03(r *Run, job *Job) {
 	r.Desc = fmt.Sprintf("C03 exts=%v dirs=%v inv=%d stallParty=%d at=%d dur=%s late=%v/%s reorder=%d/%d perm=%d/%d", exts, dirs, nInv, stallParty, stallAt, stallDur, late, lateDelay, r.ReorderNum, r.ReorderDen, e.PermNum, e.PermDen)
 	r.Logf("%s", r.Desc)
 	e.OnQuiescent = func() { c03Step(r, w, e, exts) }
-	e.Stuck = func() { r.Failf("C03.liveness", "initialisation/invocations did not finish within the bound although every party arrived") }
+	e.Stuck = func() {
+		r.Failf("C03.liveness", "initialisation/invocations did not finish within the bound although every party arrived")
+	}
 	e.Run()
 	c03Final(r, w, e, exts, dirs)
 }
